@@ -988,6 +988,11 @@ func (ev *symEval) evalValue(fr *symFrame, st *symState, v ssa.Value) SV {
 		}
 		return symOpaque(x.Op.String() + a.Desc)
 	case *ssa.BinOp:
+		if x.Op == token.QUO || x.Op == token.REM {
+			if d := ev.val(fr, x.Y); d.K == "int" && d.Known {
+				noteBound(x, d.N == 0) // a division evaluated with a concrete divisor
+			}
+		}
 		return evalBin(x.Op, ev.val(fr, x.X), ev.val(fr, x.Y))
 	case *ssa.Convert:
 		a := ev.val(fr, x.X)
